@@ -26,6 +26,10 @@ struct Rec {
 
 #[derive(Default)]
 struct Oracle {
+    /// long-history mode: hundreds of proofs in one run (nonce table over all of them), the
+    /// tamper battery only on every 16th exchange
+    long: bool,
+    seen: u64,
     inner: ExchangeOracle,
     history: Vec<Rec>,
     commitments: BTreeSet<[u8; 32]>,
@@ -233,7 +237,16 @@ impl COracle for Oracle {
             ctx.stats.probe("commitments_distinct");
         }
         self.honest.insert(stmt);
-        self.battery(ctx, &rec)?;
+        self.seen += 1;
+        if !self.long || self.seen % 16 == 1 {
+            self.battery(ctx, &rec)?;
+        }
+        if self.commitments.len() == 129 {
+            ctx.stats.probe("runs_with_more_than_128_proofs");
+        }
+        if self.history.len() > 64 {
+            self.history.remove(0);
+        }
         self.history.push(rec);
         Ok(())
     }
@@ -257,18 +270,19 @@ impl Property for C13 {
         "C (randomness service), verifiable mode, with a tampering wire"
     }
     fn rule(&self) -> &'static str {
-        "one run = a world-C history in verifiable mode (1..3 servers with own keys, several tags, clients, dup/reorder/replay so duplicated requests yield interchangeable evaluations). Completeness: every honest response verifies after crossing as JSON (evaluation) and bincode (public key). Soundness: for every honest (pk, P, Q, tag, c, s) the enumerated tamper set replaces ONE component by (a) the same-typed component of other exchanges of the history (output, input, proof, c, s, whole response = misdelivery, public key, tag, verbatim replay), (b) a neighbour (scalar +-1, point + G, one drawn bit of each encoding, other registered tag, unregistered tag, pk base + G, tag entry + G, swapped tag entries) or (c) identity / zero; verify must be false unless the resulting (statement, proof) pair was honestly issued. Nonce: the commitments s*G + c*PK_tag of all issued proofs are pairwise distinct. non-trivial = >= 2 exchanges and tampered tuples rejected; states = (tamper kind, verdict) cells"
+        "one run = a world-C history in verifiable mode (1..3 servers with own keys, several tags, clients, dup/reorder/replay so duplicated requests yield interchangeable evaluations). Completeness: every honest response verifies after crossing as JSON (evaluation) and bincode (public key). Soundness: for every honest (pk, P, Q, tag, c, s) the enumerated tamper set replaces ONE component by (a) the same-typed component of other exchanges of the history (output, input, proof, c, s, whole response = misdelivery, public key, tag, verbatim replay), (b) a neighbour (scalar +-1, point + G, one drawn bit of each encoding, other registered tag, unregistered tag, pk base + G, tag entry + G, swapped tag entries) or (c) identity / zero; verify must be false unless the resulting (statement, proof) pair was honestly issued. Nonce: the commitments s*G + c*PK_tag of all issued proofs are pairwise distinct; every 8th run (5th in thorough) is a LONG history with 150..350 (thorough: up to ~1500) proofs issued in one process so that pooled / cyclic / cached nonces show. non-trivial = >= 2 exchanges and tampered tuples rejected; states = (tamper kind, verdict) cells"
     }
     fn runs(&self, thorough: bool) -> u64 {
         if thorough { 40_000 } else { 800 }
     }
     fn run(&self, ctx: &mut Ctx) -> Result<(), Violation> {
+        let long = ctx.ch.chance(1, if ctx.thorough { 5 } else { 8 });
         let ntags = 1 + ctx.ch.index(4);
         let start = *ctx.ch.pick(&[0u8, 1, 100, 252]);
         let tags: Vec<u8> = (0..ntags).map(|i| start.wrapping_add(i as u8)).collect();
         let cfg = CCfg {
             n_servers: 1 + ctx.ch.index(3),
-            n_clients: 2 + ctx.ch.index(3),
+            n_clients: if long { 20 + ctx.ch.index(if ctx.thorough { 120 } else { 20 }) } else { 2 + ctx.ch.index(3) },
             tags,
             epoch_len_us: 1_000_000,
             rotate: false,
@@ -276,13 +290,13 @@ impl Property for C13 {
             crash: false,
             ops: false,
             verifiable: true,
-            requests_per_client: 1 + ctx.ch.index(3),
+            requests_per_client: if long { 6 + ctx.ch.index(5) } else { 1 + ctx.ch.index(3) },
             inputs: inputs(ctx),
             horizon_us: 5_000_000,
         };
         let net = NetCfg { drop: 0, dup: 200, replay: 150, misdeliver: 0, corrupt: 0, min_latency_us: 2_000, jitter_us: 2_000_000, long_delay: 0, long_delay_us: 4_000_000 };
         let mut w = WorldC::build(ctx, cfg, net)?;
-        let mut o = Oracle::default();
+        let mut o = Oracle { long, ..Default::default() };
         w.run(ctx, &mut o)
     }
     fn real_components(&self) -> Vec<&'static str> {
@@ -295,6 +309,6 @@ impl Property for C13 {
         vec!["soundness is decided structurally over the enumerated tamper set, not cryptographically", "a verify() that panics is counted and left to C09"]
     }
     fn key_probes(&self) -> Vec<&'static str> {
-        vec!["honest_proofs_verified", "tampered_rejected", "tampered_verifications", "commitments_distinct", "substitution_gave_an_honest_statement_accepted"]
+        vec!["honest_proofs_verified", "tampered_rejected", "tampered_verifications", "commitments_distinct", "substitution_gave_an_honest_statement_accepted", "runs_with_more_than_128_proofs"]
     }
 }
